@@ -44,6 +44,12 @@ LIST_FORMS = [
     ('define g begin return "G2" end repeat in "A" and group [g] as l with v from 0 to 2 begin print l print v end', ['A', 0, 'C', 1.0, 'Z', 2.0]),
     ('assign n 2 repeat {n} begin print 1 end repeat [round 1.6] begin print 2 end', [1, 1, 2, 2]),
     # the loop variable after the loop (docs/iteration.rst: "it contains the value it had during the final iteration")
+    ('repeat with i from 1 to 3 print 0 print i', [0, 0, 0, 3]),
+    ('repeat with i from 3 to 1 print 0 print i', [0, 0, 0, 1]),
+    ('repeat 2 with v from 0 to 10 print 0 print v', [0, 0, 10.0]),
+    ('repeat with i from 1 to 5 begin if {i == 2} break end print i', [2]),
+    ('repeat all as l with h from 0 to 4 print 0 print h', [0, 0, 0, 0, 0, 4.0]),
+    ('repeat 4 with h cycle print 0 print h', [0, 0, 0, 0, 270.0]),
 ]
 
 
